@@ -20,6 +20,8 @@ import PprofVerif.Gen.FetchConsts
        like fetch.model, but every source is DESCRIBED (scheme 0 plug-in, 1 file, 2 http, 3 https,
        4 https+insecure; certificate trusted; valid body) and the model's trust table
        (SrcDesc.fetchable) decides which ones can be fetched. -/
+/- fetch.common <k> <k × (list of type numbers)>
+       → the list of common types in the first list's order (Fetch.commonTypes) -/
 /- fetch.unitsum <k> <k × (factor value)>
        → `<finest factor> <sum converted to it>` (Fetch.unitSum) -/
 /- fetch.locate <k> <k × (dir name id)> <name> <buildid>
@@ -91,6 +93,10 @@ def ops : List (String × (List String → String)) := [
       match locate tree name bid with
       | some i => toString i
       | none => "none"),
+  ("fetch.common", fun ts =>
+    match Rd.run (Rd.list (Rd.list Rd.nat)) ts with
+    | none => "bad-op"
+    | some l => Wr.render (Wr.list Wr.nat (commonTypes l))),
   ("fetch.unitsum", fun ts =>
     match Rd.run (Rd.list (do let f ← Rd.nat; let v ← Rd.nat; pure (f, v))) ts with
     | none => "bad-op"
